@@ -565,6 +565,20 @@ def check_sorted_loop(ctx, repo, m, folder, cmi):
                   "MapList.__init__ has no loop that parses the map items")
         return find_list_attr(init)
     it_expr = resolve_local(init, loop.iter)
+    lst_attr0 = find_list_attr(init)
+    if isinstance(it_expr, ast.Attribute) and isinstance(it_expr.value, ast.Name) and it_expr.value.id == "self" and it_expr.attr == lst_attr0:
+        # in-place variant:  self.<list>.sort(key=...)  as a top-level statement before the loop, nothing appended in between
+        body = init.node.body
+        if loop in body:
+            li = body.index(loop)
+            for st in reversed(body[:li]):
+                c = st.value if isinstance(st, ast.Expr) else None
+                if isinstance(c, ast.Call) and isinstance(c.func, ast.Attribute) and c.func.attr == "sort" \
+                        and ast.unparse(c.func.value) == "self.%s" % lst_attr0 and not c.args:
+                    it_expr = ast.copy_location(ast.Call(func=ast.Name(id="sorted", ctx=ast.Load()), args=[c.func.value], keywords=c.keywords), c)
+                    break
+                if any(isinstance(x, ast.Attribute) and x.attr == lst_attr0 for x in ast.walk(st)):
+                    break
     is_sorted = isinstance(it_expr, ast.Call) and isinstance(it_expr.func, ast.Name) and it_expr.func.id == "sorted" \
         and single_def(init, "sorted") is None and "sorted" not in m.functions and "sorted" not in m.assigns
     ctx.check("sorted-loop", "iteration order", is_sorted, init, loop.iter,
